@@ -11,6 +11,7 @@ import (
 	"strings"
 	"testing"
 
+	apb "github.com/google/fhir/go/proto/google/fhir/proto/annotations_go_proto"
 	dtpb "github.com/google/fhir/go/proto/google/fhir/proto/r4/core/datatypes_go_proto"
 	"github.com/iancoleman/strcase"
 	"github.com/verily-src/fhirpath-go/fhirpath"
@@ -18,7 +19,6 @@ import (
 	"github.com/verily-src/fhirpath-go/internal/fhir"
 	"google.golang.org/protobuf/proto"
 	"google.golang.org/protobuf/reflect/protoreflect"
-	apb "github.com/google/fhir/go/proto/google/fhir/proto/annotations_go_proto"
 )
 
 type c02Case struct {
